@@ -247,11 +247,30 @@ func runC19(c *vf.Case) {
 				}
 				_ = cbN
 			} else {
+				blockAt := -1
+				if r.Chance(1, 3) {
+					// would-block in the middle of (or right before / after) this item
+					blockAt = len(t.Written) + r.Intn(4+len(p)+1)
+					t.WriteBlockAt = blockAt
+				}
 				k, err := conn.WriteNext(p)
+				if errors.Is(err, sonicerrors.ErrWouldBlock) && blockAt >= 0 {
+					c.Count("wouldblock_mid_item_write", 1)
+					c.Logf("item %d: WriteNext hit would-block after %d of %d bytes", i, blockAt-(len(want)-4-len(p)), 4+len(p))
+					// the rest of the item must go out, exactly once, with the next successful write
+					q := []byte{}
+					payloads = append(payloads, q)
+					want = append(want, c19Encode(q)...)
+					k, err = conn.WriteNext(q)
+					if err == nil {
+						k = 4 + len(p) // count of the flushing write is not compared
+					}
+				}
 				if err != nil {
 					c.Failf("write-error-on-healthy-transport", "WriteNext of item %d returned %v", i, err)
 					break
 				}
+				t.WriteBlockAt = -1
 				if k != 4+len(p) {
 					c.Failf("writenext-count", "WriteNext of a %d-byte item returned n=%d", len(p), k)
 				}
@@ -389,7 +408,7 @@ func init() {
 			"every case is non-trivial; distinct = (direction, API, split class or write behaviour, size classes)",
 		Assumptions: []string{
 			"declared lengths in (64 KiB, limit=1 GiB] are not fed (a conforming implementation must allocate for them): only <= 64 KiB or > limit",
-			"a synchronous WriteNext that hits would-block returns an error; the statement only constrains writes that complete successfully",
+			"a synchronous WriteNext that hits would-block mid-item returns the error; the remainder must reach the transport exactly once with the next successful write",
 			"real-socket variant (would-block in the kernel) is exercised by C02's transports; this check drives the scripted transport",
 		},
 		Builds:   func(string) []string { return []string{"checkptr"} },
